@@ -862,6 +862,81 @@ def r16_m(prog: Program, chk: Check) -> None:
     chk.ob("R16.m", "analysis_lib::get_line_range_for_node::no-crash", not crashes, site, f"{len(crashes)} crashes" + (f"; first: {crashes[0]}" if crashes else ""), witness=crashes[:3])
 
 
+# ------------------------------------------------------------------- R16.n
+def r16_n(prog: Program, chk: Check) -> None:
+    import itertools
+
+    from . import percent_model as pmod
+
+    chk.rule(
+        "R16.n",
+        "the f-string proposed for a %-format evaluates to what the %-format evaluates to, as a finite model: PercentFormatString.from_pattern (the real regular expression, "
+        "compiled from the module's constant) and maybe_replace_with_fstring are interpreted from their AST for every template built from 0-2 `%s` / `%d` specifiers and the "
+        "literal pieces '', 'a', 'hello ', '!', ' y', a newline, two newlines, CR LF - at the front, between and after the specifiers - applied to a name or a tuple of names "
+        "of the right and of the wrong length; CPython compiles and evaluates the proposed f-string with the names bound to ints (and to strings for %s-only templates) and "
+        "evaluates the original expression: the values are equal, and nothing is proposed for an expression that raises (wrong number of arguments). Whether a value suits "
+        "`%d` is not decided here: the producer sees syntax only",
+        floor=3,
+    )
+    model = pmod.PercentModel(prog)
+    pieces = ("", "a", "hello ", "!", " y", "\n", "\n\n", "\r\n", "!\n")
+    differs, for_failing, crashes, unsupported = [], [], [], []
+    n = proposed = 0
+    for nspec in (1, 2):
+        for specs in itertools.product(("%s", "%d"), repeat=nspec):
+            for lits in itertools.product(pieces, repeat=nspec + 1):
+                if nspec == 2 and (lits[0] not in ("", "a") or lits[1] not in ("", "a", "\n")):
+                    continue
+                template = lits[0] + "".join(sp + lit for sp, lit in zip(specs, lits[1:]))
+                # the names hold values every specifier of the template accepts: whether `%d` suits a value is the
+                # format checker's question (C17) and needs its type; here only the number of arguments can be wrong
+                envs = [{"x": 7, "y": 3}] + ([{"x": "v", "y": "w"}] if all(sp == "%s" for sp in specs) else [])
+                for args_src, env in itertools.product((("x",) if nspec == 1 else ()) + ("(x,)", "(x, y)", "(y, x)"), envs):
+                    n += 1
+                    d = {"expression": f"{template!r} % {args_src}", "with": dict(env)}
+                    try:
+                        want = ("value", eval(f"{template!r} % {args_src}", dict(env)))
+                    except Exception as e:  # noqa: BLE001 - the reference records whatever CPython raises
+                        want = ("raises", type(e).__name__)
+                    args_node = ast.parse(args_src, mode="eval").body
+                    try:
+                        r = model.fstring_fix(template, args_node)
+                    except AnchorError as e:
+                        unsupported.append({**d, "why": str(e)[:300]})
+                        continue
+                    if r[0] == "crash":
+                        crashes.append({**d, "error": r[1]})
+                        continue
+                    node = r[1]
+                    if node is None:
+                        continue
+                    proposed += 1
+                    expr = ast.Expression(body=node)
+                    ast.fix_missing_locations(expr)
+                    try:
+                        got = eval(compile(expr, "<proposed f-string>", "eval"), dict(env))
+                        shown = ast.unparse(node)
+                    except Exception as e:  # noqa: BLE001
+                        differs.append({**d, "proposed": "<does not compile / evaluate>", "error": f"{type(e).__name__}: {e}"})
+                        continue
+                    if want[0] == "raises":
+                        for_failing.append({**d, "cpython raises": want[1], "proposed": shown})
+                    elif got != want[1]:
+                        differs.append({**d, "value": want[1], "proposed": shown, "value of the proposal": got})
+    chk.model_evaluations += n
+    chk.analysed["fstring_fix_model"] = {"expressions": n, "fixes proposed": proposed}
+    if proposed < 50:
+        raise AnchorError(f"the model of maybe_replace_with_fstring proposed only {proposed} f-strings for {n} expressions")
+    site = prog.site("format_strings", prog.func("format_strings", "maybe_replace_with_fstring"))
+    for lst in (differs, for_failing):
+        lst.sort(key=lambda x: len(x["expression"]))
+    chk.ob("R16.n", "format_strings::fstring-fix-model::the proposed f-string has the value of the %-format", not differs, site, f"{proposed} proposals, {len(differs)} with another value" + (f"; smallest: {differs[0]}" if differs else ""), witness=differs[:5])
+    chk.ob("R16.n", "format_strings::fstring-fix-model::nothing is proposed for an expression that raises", not for_failing, site, f"{len(for_failing)} proposals for failing expressions" + (f"; smallest: {for_failing[0]}" if for_failing else ""), witness=for_failing[:5])
+    chk.ob("R16.n", "format_strings::fstring-fix-model::no-crash", not crashes, site, f"{len(crashes)} crashes" + (f"; first: {crashes[0]}" if crashes else ""), witness=crashes[:3])
+    if unsupported:
+        raise AnchorError(f"{len(unsupported)} expressions cannot be modelled; first: {unsupported[0]}")
+
+
 def run(prog: Program, chk: Check) -> None:
     guard(chk, r16_c, prog, chk)
     guard(chk, r16_e, prog, chk)
@@ -872,3 +947,4 @@ def run(prog: Program, chk: Check) -> None:
     guard(chk, r16_k, prog, chk)
     guard(chk, r16_l, prog, chk)
     guard(chk, r16_m, prog, chk)
+    guard(chk, r16_n, prog, chk)
